@@ -449,6 +449,15 @@ func (s *c11State) register(owner string, tg int, target string, wn int, when st
 	s.nreg++
 	s.regDesc = append(s.regDesc, name)
 	s.extra = appendUnique(s.extra, "failing_callback:"+owner+"/"+when+"/"+target)
+	// optionally a second failing callback on the very same slot: one invocation round then raises two errors
+	if c.Bool() {
+		name2 := name + "#2"
+		c.Logf("t.RegisterPropertyCallback(%s, %s, %s, failing %s)   // same slot again", owner, when, target, name2)
+		if err := registerCB(b.T, po, wn, tg, &c11CB{s, name2, zero}); err == nil {
+			s.regDesc = append(s.regDesc, name2)
+			s.extra = appendUnique(s.extra, "two_failing_callbacks_on_one_slot")
+		}
+	}
 }
 
 func (s *c11State) check(when string) bool {
